@@ -145,7 +145,7 @@ def units(tier):
     n = len(trees(depth))
     chunk = 40 if tier == "quick" else 400
     u = [["T", way, i, min(i + chunk, n)] for way in WAYS for i in range(0, n, chunk)]
-    u += [["N", 0], ["PREP"], ["MEMB"]] + [["NL", op] for op in OPS]
+    u += [["N", 0], ["PREP"], ["MEMB"], ["SRC"]] + [["NL", op] for op in OPS]
     hist_depth = 2 if tier == "quick" else 3
     # H part: one unit per first transition (prefix partition)
     u += [["H", hist_depth, i] for i in range(len(h_menu(len(h_initial_terms()))))]
@@ -160,6 +160,38 @@ def run_unit(unit, tier):
         for i in range(lo, hi):
             check_tree(res, ts[i], way, key=("T", way, i))
         res.sample({"kind": "T", "tree": ts[lo], "way": way})
+    elif unit[0] == "SRC":
+        # operands with a data-path argument in every position of a combination, filtered with source data: the same as
+        # the combination with the resolved literal
+        pa = T.leaf("Value", "less_than", ("$path", T.path((("prim", "limit"),))))
+        lit = T.leaf("Value", "less_than", 3)
+        v1, v2 = LEAVES["v2"], LEAVES["v3"]
+        src = {"limit": 3, "x": [1]}
+        shapes_ = lambda a: [(op, v1, a) for op in OPS] + [(op, a, v1) for op in OPS] + [(op, T.NULL, a) for op in OPS] + \
+            [(op, (op2, v1, v2), a) for op in OPS for op2 in OPS] + [(op, v1, (op2, v2, a)) for op in OPS for op2 in OPS] + \
+            [(op, a, a) for op in OPS]
+        for i, (tp, tl) in enumerate(zip(shapes_(pa), shapes_(lit))):
+            res.count("evaluations")
+            res.state("SRC", i)
+            case = {"kind": "T", "tree": tp, "way": "operator", "src": True}
+            for way in ("operator", "spec"):
+                for doc in LIST_DOCS + MAP_DOCS:
+                    res.count("transitions", 2)
+                    try:
+                        a = WAYS[way](tp).filter(fresh(doc), source_data=fresh(src)).result
+                        b = WAYS["operator"](tl).filter(fresh(doc)).result
+                    except BaseException as e:
+                        a, b = "raises " + type(e).__name__, None
+                    if a != b:
+                        res.violation("source-data:%s" % way, "%s filtered with source data %r on %r differs from the same combination "
+                                      "with the resolved literal" % (T.show(tp), src, doc), case, observed=a, expected=b)
+                        break
+                else:
+                    continue
+                break
+            else:
+                res.count("validated")
+                res.count("nontrivial")
     elif unit[0] == "MEMB":
         # membership / range / key-set leaves (list arguments the condition keeps) in every pair and operator
         for i, (op, a, b) in enumerate(itertools.product(OPS, MEMB, MEMB)):
@@ -266,6 +298,20 @@ def check_tree(res, t, way, key, docs_override=None):
         if got != want_abs:
             res.violation("reference:%s" % way, "%s on %r differs from the reference model" % (T.show(t), doc), case,
                           observed=got, expected=want_abs)
+            return
+        # the filtered view of a combination: selected values / keys / failure indices are the partition induced by the
+        # booleans, in document order
+        try:
+            fdv = c.filter(fresh(doc))
+            items = ref.items_of(doc)
+            view = ([vsnap(x) for x in fdv.data], [vsnap(x) for x in fdv.keys], list(fdv.failure_indices))
+            wantv = ([vsnap(v) for (k, v), r in zip(items, got) if r], [vsnap(k) for (k, v), r in zip(items, got) if r],
+                     [i for i, r in enumerate(got) if not r])
+        except BaseException as e:
+            view, wantv = ("raises", repr(e)), None
+        if view != wantv:
+            res.violation("view:%s" % way, "the filtered view of %s on %r is not the partition induced by its result" % (T.show(t), doc),
+                          case, observed=view, expected=wantv)
             return
         # the way rule tests ask: the items handed over as (value, concrete path) pairs
         # (value-kind trees only: that calling convention hands index-kind leaves a pair instead of an index -- on the
